@@ -1,10 +1,19 @@
 package main
 
 import (
+	"bytes"
 	"encoding/json"
+	"errors"
 	"fmt"
+	"io"
+	"net/http"
 	"sort"
+	"strconv"
+	"strings"
+	"sync"
+	"time"
 
+	"github.com/iden3/go-schema-processor/v2/loaders"
 	"github.com/piprate/json-gold/ld"
 )
 
@@ -122,6 +131,9 @@ func genC15(out *Out, r *Rng, tier string, n int, shard int) {
 			// a context that does not alias id/type: properties of exactly these names are as undefined as any other
 			g.noAliasTerms = true
 			undefNames = []string{"id", "type"}
+		}
+		if i%4 == 1 {
+			emitC15OverHTTP(out, r)
 		}
 		if i%5 == 3 {
 			// two top-level nodes sharing paths: rejected, or else every field covered (entries == leaves == map)
@@ -256,3 +268,112 @@ func genC15(out *Out, r *Rng, tier string, n int, shard int) {
 }
 
 func init() { gens["C15"] = genC15 }
+
+// revOrigin: an origin that serves one context URL in two revisions (one of which lacks a term the document uses), with
+// transient failures: the next `failNext` requests fail in the given way, afterwards the origin answers again.
+type revOrigin struct {
+	mu       sync.Mutex
+	url      string
+	revs     [2][]byte
+	cur      int
+	policy   string
+	failNext int
+	failKind string
+	reqs     int
+}
+
+func (o *revOrigin) RoundTrip(req *http.Request) (*http.Response, error) {
+	o.mu.Lock()
+	defer o.mu.Unlock()
+	o.reqs++
+	if req.URL.String() != o.url {
+		return &http.Response{StatusCode: 404, Body: io.NopCloser(strings.NewReader("not found")), Header: http.Header{}, Request: req}, nil
+	}
+	if o.failNext > 0 {
+		o.failNext--
+		if o.failKind == "transport" {
+			return nil, errors.New("connection reset")
+		}
+		st, _ := strconv.Atoi(o.failKind)
+		return &http.Response{StatusCode: st, Body: io.NopCloser(strings.NewReader("unavailable")), Header: http.Header{}, Request: req}, nil
+	}
+	return &http.Response{StatusCode: 200, Body: io.NopCloser(bytes.NewReader(o.revs[o.cur])), Header: policyHeaders(o.policy, time.Now()), Request: req}, nil
+}
+
+// emitC15OverHTTP: the whole path a user runs - MerklizeJSONLD with the library's own HTTP loader and cache - over a history
+// in which the remote context is re-published (a term appears or disappears), cache entries expire and the origin fails
+// for a request or two. Whatever the loader serves, a successful safe-mode merklization is the merklization under one
+// of the published revisions: every field of the document is in the tree. (Revisions change between operations only.)
+func emitC15OverHTTP(out *Out, r *Rng) {
+	url := fmt.Sprintf("https://ctx.example/rev/%d.jsonld", r.Intn(1<<30))
+	term := r.Pick([]string{"extra", "note", "f9", "zeta"})
+	scoped := r.Bool()
+	mk := func(with bool) []byte {
+		tctx := J{"a": J{"@id": "urn:ex:v#a", "@type": xsdNS + "integer"}}
+		top := J{"@version": 1.1, "id": "@id", "type": "@type", "T": J{"@id": "urn:ex:T", "@context": tctx}}
+		if with {
+			def := J{"@id": "urn:ex:v#" + term, "@type": xsdNS + "string"}
+			if scoped {
+				tctx[term] = def
+			} else {
+				top[term] = def
+			}
+		}
+		b, _ := json.Marshal(J{"@context": top})
+		return b
+	}
+	o := &revOrigin{url: url, revs: [2][]byte{mk(false), mk(true)}, cur: r.Intn(2), policy: "max-age=60"}
+	doc, _ := json.Marshal(J{"@context": url, "id": "urn:ex:subject:1", "type": "T", "a": 1 + r.Intn(1000), term: "v" + fmt.Sprint(r.Intn(1000))})
+	hs := hPoseidon()
+	// the published revisions on their own (no cache, no failures): the roots a successful merklization may have
+	okRoots := map[bool]map[string]bool{true: {}, false: {}}
+	for rev := 0; rev < 2; rev++ {
+		for _, safe := range []bool{true, false} {
+			if run := runMerklize(doc, hs, &mapLoader{docs: map[string][]byte{url: o.revs[rev]}}, safe); run.Err == nil {
+				okRoots[safe][run.Mz.Root().BigInt().String()] = true
+			}
+		}
+	}
+	inner, _ := loaders.NewMemoryCacheEngine()
+	ve := &virtualEngine{inner: inner}
+	loader := loaders.NewDocumentLoader(nil, "", loaders.WithHTTPClient(&http.Client{Transport: o}), loaders.WithCacheEngine(ve))
+	var hist []any
+	var why []string
+	merklized := 0
+	for step, n := 0, 6+r.Intn(8); step < n; step++ {
+		switch x := r.Intn(10); {
+		case x == 0:
+			o.cur = 1 - o.cur
+			hist = append(hist, fmt.Sprintf("republish rev%d", o.cur))
+		case x == 1:
+			o.policy = r.Pick([]string{"max-age=60", "max-age=0", "no-store", "expires+3600", "expires-10", "max-age=1"})
+			hist = append(hist, "policy "+o.policy)
+		case x == 2 || x == 3:
+			t := []int{1, 30, 61, 3601, 100000}[r.Intn(5)]
+			ve.tick(t)
+			hist = append(hist, fmt.Sprintf("tick %d", t))
+		case x == 4 || x == 5:
+			o.failNext, o.failKind = 1+r.Intn(3), r.Pick([]string{"500", "502", "503", "504", "transport", "404", "429"})
+			hist = append(hist, fmt.Sprintf("fail next %d (%s)", o.failNext, o.failKind))
+		default:
+			safe := r.Chance(75)
+			run := runMerklize(doc, hs, loader, safe)
+			merklized++
+			if run.Err != nil {
+				hist = append(hist, fmt.Sprintf("merklize safe=%v: error", safe))
+				continue
+			}
+			root := run.Mz.Root().BigInt().String()
+			hist = append(hist, fmt.Sprintf("merklize safe=%v: %d entries", safe, len(run.Mz.VerifEntries())))
+			if !okRoots[safe][root] {
+				msg := "is not the merklization of the document under any published revision of its context"
+				if safe {
+					msg += ": a field was silently dropped"
+				}
+				why = append(why, fmt.Sprintf("step %d: the result (%d entries, safe mode %v) %s", step, len(run.Mz.VerifEntries()), safe, msg))
+			}
+		}
+	}
+	out.Emit(Case{Op: "none", In: J{"doc": string(doc), "term": term, "scoped": scoped, "history": hist}, Impl: okJ(merklized), Prop: propOf(why),
+		Tags: []string{"over-http", fmt.Sprintf("scoped:%v", scoped)}, NT: merklized > 0})
+}
